@@ -203,7 +203,7 @@ c_mix.domain = {"T": (-50.0, 400.0)}
 def _T_sampler(rng):
     """temperatures of the property's range 100..400 K (below, float64 underflows to 0 although the formulas are positive),
     the two branch temperatures of the mixed-phase formula and their neighbours one ulp away, non-positive ones (rejected);
-    scalars and arrays"""
+    scalars, 0-d arrays, float arrays and arrays of integer dtype"""
     import numpy as _np
     Tt = constants.triple_point_water
     special = [100.0, 400.0, Tt, Tt - 23.0, _np.nextafter(Tt, 0), _np.nextafter(Tt, 1e3), _np.nextafter(Tt - 23.0, 0), _np.nextafter(Tt - 23.0, 1e3)]
@@ -211,8 +211,12 @@ def _T_sampler(rng):
     r = rng.random()
     if r < 0.1:
         return dict(T=rng.choice([0.0, -1.0, rng.uniform(-50.0, 0.0)]))
-    if r < 0.6:
+    if r < 0.5:
         return dict(T=one())
+    if r < 0.6:
+        return dict(T=_np.array(one()))                                       # 0-d array (in the property's quantifier)
+    if r < 0.7:                                                               # whole-Kelvin grids of integer dtype, a plain int
+        return dict(T=rng.choice([_np.arange(rng.randint(100, 250), rng.randint(251, 400), rng.randint(1, 40)), _np.array([250, 273, 300], dtype="int32"), rng.randint(100, 400)]))
     return dict(T=_np.array([one() for _ in range(rng.randint(1, 5))]))
 
 
